@@ -25,6 +25,14 @@ CHECKS["C09"] = dict(
     design="DESIGN.md §6 C09",
 )
 
+CHECKS["C01"] = dict(
+    category="model_checking",
+    technique="exhaustive chunk-size-sequence sweep plus deviation-bounded schedule/transport exploration (DX) of two real linked Sessions; IX sweep at the Stream AsyncRead/AsyncWrite seam",
+    text="Real client session <-> real server session over virtual pipes. B=0 sweep of every sequence of <=2 chunk sizes (thorough: +3 over a reduced set) from 15 boundary sizes 0..131072 x direction x both submission paths x 3 padding schemes x read-buffer sizes x pipe capacity; DX (B<=2 quick, 3 thorough) of concurrent flows on 1-2 streams with forced yields, short reads straddling frame headers, short/pending writes and back-pressure. Oracle at every read return: bytes are the exact continuation of the position-coded pattern; at quiescence everything submitted was read, nothing more, and no 0-byte read happened while the stream was open.",
+    note="Trusted: vpipe environment, fixed position/stream/direction-coded payload pattern (other contents not explored), at most 2 streams, TLS record layer out of scope.",
+    design="DESIGN.md §6 C01",
+)
+
 NOT_YET = {
 }
 
